@@ -100,7 +100,10 @@ func c11History(k *fw.K, quick bool) {
 	var fc *layers.FC
 	var err error
 	if p := call(func() {
-		fc, err = layers.NewFC(&layers.FCConfig{Inputs: m.D, Outputs: m.O, Initializers: map[string]layers.Initializer{"Weight": fixedInit{w0}, "Bias": fixedInit{b0}}})
+		conf := &layers.FCConfig{Inputs: m.D, Outputs: m.O, Initializers: map[string]layers.Initializer{"Weight": fixedInit{w0}, "Bias": fixedInit{b0}}}
+		fc, err = layers.NewFC(conf)
+		conf.Inputs, conf.Outputs = 99, 99 // the caller's config and its map are overwritten after construction
+		conf.Initializers["Weight"], conf.Initializers["Bias"] = nil, nil
 	}); p != nil || err != nil {
 		k.Failf("NewFC: panic=%v err=%v", p, err)
 		return
@@ -134,7 +137,14 @@ func c11History(k *fw.K, quick bool) {
 		}
 	}
 	loss := lossObj(m.Loss)
-	opt := optimizers.NewSGD(m.conf)
+	var opt *optimizers.SGD
+	if m.conf == nil {
+		opt = optimizers.NewSGD(nil)
+	} else {
+		conf := *m.conf
+		opt = optimizers.NewSGD(&conf)
+		conf.LearningRate = 123 // the caller's config is overwritten after construction
+	}
 	newBatch := func() (*ref.T, *ref.T) {
 		x := RandT(r, []int{m.B, m.D}, -1, 1)
 		if m.Variant == "dead-relu" {
